@@ -6,7 +6,7 @@ def run(pid, tier, seed):
     if pid in ("C01", "C02", "C11"):
         return props_seq.run_seq_property(pid, tier, seed)
     if pid in ("C03", "C04", "C06", "C10"):
-        return props_sched.run_sched_property(pid, tier, seed, level=("other" if pid == "C04" else "proof"))
+        return props_sched.run_sched_property(pid, tier, seed, level="proof")
     if pid in ("C05", "C08", "C09"):
         # sequential half (all six types, every history) + scheduled half
         rc1 = props_seq.run_seq_property(pid, tier, seed, write=False)
